@@ -7,7 +7,8 @@ RULE = ("all subsets S of {1..n} (n<=6 quick / 8 thorough) with |S| >= t, in EVE
         "rotations+reversal above, t from 1 to |S|, on p=2039 and the 62-bit set (n<=12 sampled at 62 bits, a handful at 2048), plus high "
         "trustee numbers with high thresholds (n = 12, 17, 20 with t = 10..20; 90 of 130 trustees and trustees 70..139 with t = 66; 40 thorough) where trustee^(t-1) exceeds 2^32 and 2^64: "
         "lagrange, eval_poly, threshold::decryption_factor compared with the Gallina model; battery on implementation outputs: "
-        "sum_i lambda_i P(i) = P(0) mod q, the combined factors decrypt the ciphertext, |S| = t-1 does not (62-bit and up)")
+        "sum_i lambda_i P(i) = P(0) mod q, the combined factors decrypt the ciphertext, |S| = t-1 does not (62-bit and up)"
+        " Added in session 3: dealer polynomials with zero constant / interior / leading coefficients;")
 
 
 def run(env):
